@@ -253,7 +253,7 @@ class RunEnv:
             kw["resume_from"] = resume_from
         self.kwargs_used = kw
         try:
-            self.final = self.sampler.sample(self.N, **kw)
+            self.final = self.sampler.sample(getattr(self, "N_arg", self.N), **kw)
         except _Stop:
             self.stopped = True
         except InjectedFault as e:
